@@ -9,6 +9,7 @@ import (
 	"errors"
 	"fmt"
 	"hash"
+	"io"
 	"math/big"
 	"sync"
 
@@ -61,7 +62,15 @@ func (r *recReader) Read(b []byte) (int, error) {
 	idx := r.reads
 	r.reads++
 	if r.failAt >= 0 && (idx == r.failAt || (idx > r.failAt && r.mode != "failonce")) {
-		return 0, errors.New("verif: random source failure") // "fail": from read failAt on; "failonce": that read only
+		// "fail": from read failAt on; "failonce": that read only.  What a failing source returns is its own business: an error of
+		// its own, a source that has run dry (io.EOF with nothing read), io.ErrUnexpectedEOF
+		switch (r.seed + r.failAt) % 3 {
+		case 1:
+			return 0, io.EOF
+		case 2:
+			return 0, io.ErrUnexpectedEOF
+		}
+		return 0, errors.New("verif: random source failure")
 	}
 	if r.chunk > 0 && len(b) > r.chunk {
 		b = b[:r.chunk]
@@ -811,10 +820,38 @@ func actProposalRoundtrip(e *Env, a J) J {
 	}
 	obs := J{}
 	var back *message.Proposal
+	// the proposal is the caller's (it came off the wire, it will be answered): building an SA from it reads it.  It is rendered
+	// before use, as a caller that logs what it received does.
+	projProp := func(p *message.Proposal) string {
+		trs := []any{}
+		trs = projTransforms(1, p.EncryptionAlgorithm, trs)
+		trs = projTransforms(2, p.PseudorandomFunction, trs)
+		trs = projTransforms(3, p.IntegrityAlgorithm, trs)
+		trs = projTransforms(4, p.DiffieHellmanGroup, trs)
+		trs = projTransforms(5, p.ExtendedSequenceNumbers, trs)
+		return digest(J{"num": int(p.ProposalNumber), "proto": int(p.ProtocolID), "spi": octOf(p.SPI), "tr": trs})
+	}
+	func() {
+		defer func() { _ = recover() }()
+		_ = fmt.Sprintf("%v %+v", prop, prop)
+		for _, c := range []message.TransformContainer{prop.EncryptionAlgorithm, prop.PseudorandomFunction, prop.IntegrityAlgorithm, prop.DiffieHellmanGroup, prop.ExtendedSequenceNumbers} {
+			for _, t := range c {
+				_ = fmt.Sprintf("%v %s", t, fmt.Sprint(t))
+			}
+		}
+	}()
+	propBefore := projProp(prop)
+	defer func() {
+		obs["propsame"] = projProp(prop) == propBefore
+	}()
 	if gs(a, "kind") == "ike" {
 		var k *security.IKESAKey
 		k, _, err = security.NewIKESAKey(prop, fillPattern("seeded", 256, 3), fillPattern("seeded", 32, 4), 1, 2)
 		obs = errObs(err)
+		if err != nil { // refused: refused again when asked again (the verdict is a function of the proposal)
+			_, _, err2 := security.NewIKESAKey(prop, fillPattern("seeded", 256, 3), fillPattern("seeded", 32, 4), 1, 2)
+			obs["againerr"] = err2 != nil
+		}
 		if err == nil {
 			obs["encr"], _ = algName("encr", k.EncrInfo)
 			obs["integ"], _ = algName("integ", k.IntegInfo)
@@ -846,6 +883,10 @@ func actProposalRoundtrip(e *Env, a J) J {
 		var c *security.ChildSAKey
 		c, err = security.NewChildSAKeyByProposal(prop)
 		obs = errObs(err)
+		if err != nil {
+			_, err2 := security.NewChildSAKeyByProposal(prop)
+			obs["againerr"] = err2 != nil
+		}
 		if err == nil {
 			obs["encr"], _ = algName("encrk", c.EncrKInfo)
 			if c.IntegKInfo != nil {
